@@ -45,7 +45,7 @@ def warm():
     _docs = corpus.corpus()
     for n in sorted(_docs):
         e = n.rsplit(".", 1)[-1].lower()
-        if e in EXTS and "password" not in n and len(_docs[n]) < 400_000 and _docs[n][:2] == b"PK":
+        if e in EXTS and "password" not in n and len(_docs[n]) < 900_000 and _docs[n][:2] == b"PK":
             _containers.setdefault(e, []).append(n)
     from sharepoint2text.parsing.extractors.util import zip_bomb
     _monitor_ok = all(hasattr(zip_bomb, f) for f in ("validate_zipfile", "open_zipfile", "validate_zip_bytesio"))
